@@ -248,3 +248,38 @@ m("c20-flock-not-stored", "C20", "nomt/src/store/mod.rs",
   "                flock: Some(flock),\n",
   "                flock: { drop(flock); None },\n",
   "D3|store::Store::open|")
+
+# ---------------- C08 ----------------
+m("c08-confirm-without-scope", "C08", "core/src/proof/path_proof.rs",
+  "        self.in_scope(&expected_leaf.key_path)\n            .map(|_| self.terminal() == Some(expected_leaf))",
+  "        Ok(self.terminal() == Some(expected_leaf))",
+  "S2|proof::path_proof::VerifiedPathProof::confirm_value|ok-depends-on-scope")
+m("c08-construct-on-mismatch", "C08", "core/src/proof/path_proof.rs",
+  "        } else {\n            Err(PathProofVerificationError::RootMismatch)\n        }\n    }\n}",
+  "        } else if self.siblings.is_empty() {\n            Ok(VerifiedPathProof { key_path: relevant_path.into(), terminal: None, siblings: Vec::new(), root })\n        } else {\n            Err(PathProofVerificationError::RootMismatch)\n        }\n    }\n}",
+  "S1|proof::path_proof::PathProof::verify|construct-behind-root-eq")
+m("c08-delete-opoutofscope", "C08", "core/src/proof/path_proof.rs",
+  "            if !key.view_bits::<Msb0>().starts_with(path.inner.path()) {\n                return Err(VerifyUpdateError::OpOutOfScope);\n            }\n",
+  "",
+  "S3|proof::path_proof::VerifyUpdateError|variant=OpOutOfScope")
+m("c08-delete-multi-root-check", "C08", "core/src/proof/multi_proof.rs",
+  "    if root != new_root {\n        return Err(MultiProofVerificationError::RootMismatch);\n    }\n",
+  "    let _ = new_root;\n",
+  "S1|proof::multi_proof::verify|root-comparison")
+m("c08-with-index-no-scope", "C08", "core/src/proof/multi_proof.rs",
+  "        if in_scope {\n            Ok(self.confirm_value_inner(&expected_leaf, index))\n        } else {\n            Err(KeyOutOfScope)\n        }",
+  "        let _ = in_scope;\n        Ok(self.confirm_value_inner(&expected_leaf, index))",
+  "S2|proof::multi_proof::VerifiedMultiProof::confirm_value_with_index|ok-depends-on-scope")
+m("c08-pub-fields", "C08", "core/src/proof/path_proof.rs",
+  "pub struct VerifiedPathProof {\n    key_path: BitVec<u8, Msb0>,",
+  "pub struct VerifiedPathProof {\n    pub key_path: BitVec<u8, Msb0>,",
+  None)  # one public field does not make the struct constructible: stays silent
+m("c08-all-pub-fields", "C08", "core/src/proof/multi_proof.rs",
+  "pub struct VerifiedMultiProof {\n    inner: Vec<VerifiedMultiPath>,\n    bisections: Vec<VerifiedBisection>,\n    siblings: Vec<Node>,\n    root: Node,\n}",
+  "pub struct VerifiedMultiProof {\n    pub inner: Vec<VerifiedMultiPath>,\n    pub bisections: Vec<VerifiedBisection>,\n    pub siblings: Vec<Node>,\n    pub root: Node,\n}",
+  "witness|witness::C08VerifiedMultiProofNotConstructible")
+# ---------------- C12 witnesses ----------------
+m("c12-commit-by-ref", "C12", "nomt/src/overlay.rs",
+  "    /// Mark the overlay as committed and return a marker.",
+  "    /// Clone-like handle (test of the witness).\n    pub fn dup(&self) -> Self {\n        Overlay { inner: self.inner.clone() }\n    }\n\n    /// Mark the overlay as committed and return a marker.",
+  None)  # an explicit duplicate is a different API, the move-semantics witness still holds: silent
